@@ -84,8 +84,10 @@ def generate(tier, seed):
         for t in TASKS:
             items.append({'family': 'hand-tasks', 'task': t, 'flags': (s, e), 'label': '%s simplify=%s eq-break=%s' % (t[0], s, e)})
         for t in example_tasks():
+            if tier == 'quick' and (s, e) != (True, True):
+                continue
             items.append({'family': 'repo-examples', 'task': t, 'flags': (s, e), 'label': '%s simplify=%s eq-break=%s' % (t[0], s, e),
-                          'timeout_ms': 20000 if tier == 'thorough' else 8000})
+                          'timeout_ms': 20000 if tier == 'thorough' else 5000, 'no_retry': True})
     return items
 
 
